@@ -105,3 +105,106 @@ def q_cof_any_distance():
 
 def queries(tier, seed):
     return [q_transpose(), q_compose(), q_major(), q_cof(), q_cof_any_distance()]
+
+
+# ---- independent second opinion: CrossHair (pre-installed symbolic executor) on the same pure functions
+CROSSHAIR_SRC = '''
+from scoda.misc.music_theory import CircleOfFifths, Key
+
+TONIC = {"C": 0, "G": 7, "D": 2, "A": 9, "E": 4, "B": 11, "F#": 6, "C#": 1, "F": 5, "Bb": 10, "Eb": 3, "Ab": 8,
+         "Db": 1, "Gb": 6, "Cb": 11}
+KEYS = list(Key)
+
+
+def transpose_tonic(k: int, n: int) -> bool:
+    """
+    pre: 0 <= k < 15
+    post: _
+    """
+    r = Key.transpose_key(KEYS[k], n)
+    return isinstance(r, Key) and TONIC[r.value] == (TONIC[KEYS[k].value] + n) % 12
+
+
+def cof_distance(a: int, b: int) -> bool:
+    """
+    post: _
+    """
+    d = CircleOfFifths.get_distance(a, b)
+    return -5 <= d <= 6 and (d - 7 * (b - a)) % 12 == 0 and CircleOfFifths.from_distance(a, d) == b % 12
+'''
+
+
+def extra_checks(ctl, tier, seed):
+    import os
+    import re
+    import subprocess
+    import sys
+    import tempfile
+    import time
+    verif = os.path.dirname(os.path.dirname(os.path.abspath(__file__)))
+    d = tempfile.mkdtemp(prefix="scoda-c20-ch-")
+    out = []
+    try:
+        path = os.path.join(d, "c20_crosshair.py")
+        open(path, "w").write(CROSSHAIR_SRC)
+        t0 = time.time()
+        env = dict(os.environ, PYTHONPATH=ctl.root + os.pathsep + os.path.join(verif, ".deps"))
+        to = 40 if tier == "quick" else 400
+        try:
+            r = subprocess.run([sys.executable, "-m", "crosshair", "check", "--report_all", "--per_condition_timeout", str(to), path],
+                               capture_output=True, text=True, env=env, cwd=d, timeout=3 * to + 120)
+            text = r.stdout + r.stderr
+        except subprocess.TimeoutExpired:
+            text = "timeout"
+        lines = [ln for ln in text.splitlines() if "c20_crosshair.py" in ln]
+        for fn in ("transpose_tonic", "cof_distance"):
+            lineno = CROSSHAIR_SRC[:CROSSHAIR_SRC.index("def " + fn)].count("\n") + 1
+            mine = [ln for ln in lines if any(f":{lineno + o}:" in ln for o in range(5)) or (fn + "(") in ln]
+            res = {"id": f"crosshair/{fn}", "clause": "crosshair_" + fn, "engine": "crosshair-tool (independent second opinion)",
+                   "solver_s": round(time.time() - t0, 1), "output": mine[:3]}
+            cex = [ln for ln in mine if "error" in ln and "when calling" in ln]
+            if cex:
+                args = None
+                try:
+                    import ast as _ast
+                    call_src = cex[0][cex[0].index(fn + "("):]
+                    depth, end = 0, None
+                    for i_, ch in enumerate(call_src):
+                        if ch == "(":
+                            depth += 1
+                        elif ch == ")":
+                            depth -= 1
+                            if depth == 0:
+                                end = i_ + 1
+                                break
+                    node = _ast.parse(call_src[:end], mode="eval").body
+                    names = {"transpose_tonic": ["k", "n"], "cof_distance": ["a", "b"]}[fn]
+                    args = {nm: _ast.literal_eval(a_) for nm, a_ in zip(names, node.args)}
+                    for kw in node.keywords:
+                        args[kw.arg] = _ast.literal_eval(kw.value)
+                except Exception:  # noqa: an unparsable report is recorded, never trusted
+                    args = None
+                if args is None or len(args) != 2:
+                    res.update(status="not_confirmed", note="counterexample reported but not parsable: " + cex[0][-200:])
+                    out.append(res)
+                    continue
+                res.update(status="violated", inputs={"fn": fn, "args": args})
+            elif any("Confirmed over all paths" in ln for ln in mine):
+                res["status"] = "held"
+            else:
+                res["status"] = "not_confirmed"      # recorded only: symx decides the property
+            out.append(res)
+    finally:
+        import shutil
+        shutil.rmtree(d, ignore_errors=True)
+    return out
+
+
+def replay_extra(xid, inputs):
+    ns = {}
+    exec(CROSSHAIR_SRC, ns)
+    try:
+        ok = ns[inputs["fn"]](**inputs["args"])
+    except Exception as ex:  # noqa
+        return True, f"{inputs['fn']}({inputs['args']}) raised {type(ex).__name__}"
+    return (not ok), f"{inputs['fn']}({inputs['args']}) -> {ok}"
